@@ -481,7 +481,21 @@ check:
 	// so we have to check equality the hard way.
 looking:
 	for _, ut := range t.Type {
-		errs = append(errs, ut.resolve(d)...)
+		// Members that name the same typedef report the same errors; take
+		// each once, or the list doubles with every level of a chain of
+		// unions.
+		for _, err := range ut.resolve(d) {
+			seen := false
+			for _, e := range errs {
+				if e == err {
+					seen = true
+					break
+				}
+			}
+			if !seen {
+				errs = append(errs, err)
+			}
+		}
 		if ut.YangType != nil {
 			for _, yt := range y.Type {
 				if ut.YangType.Equal(yt) {
